@@ -174,7 +174,7 @@ func TestChainTransparency(t *testing.T) {
 		closed := false
 		defer func() {
 			if !closed {
-				_ = chain.Close()
+				kit.BoundedClose(chain.Close)
 			}
 		}()
 		twccID := rapid.SampledFrom([]int{0, 0, 1, 5, 14}).Draw(t, "twccID")
